@@ -44,7 +44,7 @@ func genPeriod(r *kit.Rng, n uint32, class string) int64 {
 	switch class {
 	case "zero":
 		return 0
-	case "subcount": // P < N: the interval truncates to 0 ns and the code treats the rate as unlimited
+	case "subcount": // P < N: the interval truncates to 0 ns and is clamped to 1 ns
 		if n <= 1 {
 			return 0
 		}
@@ -212,9 +212,9 @@ func genScenario(r *kit.Rng, kind, tier string) *scenario {
 			class = "extreme"
 		case kind == "malformed" && r.Chance(1, 3):
 			class = "negative"
-		case r.Chance(1, 40): // findings F23 lives here: keep the stream thin so that it masks little
+		case r.Chance(1, 14):
 			class = "subcount"
-		case r.Chance(1, 60):
+		case r.Chance(1, 25):
 			class = "zero"
 		}
 		l := genLimit(r, i+1, class)
@@ -411,6 +411,9 @@ func genLimiterScenario(r *kit.Rng, tier string) *scenario {
 		}
 		l.Count = kit.Pick(r, []uint32{1, 2, 3, 3, 5})
 		l.Period = int64(l.Count) * kit.Pick(r, []int64{1000, 1_000_000_000, 60_000_000_000, 1_200_000_000_000})
+		if l.Count > 1 && r.Chance(1, 12) {
+			l.Period = int64(1 + r.Intn(int(l.Count)-1)) // more than one operation per ns: clamped interval
+		}
 		sc.Limits = append(sc.Limits, l)
 	}
 	opsUsed := []int{1, 2, 5, 6}
@@ -621,7 +624,7 @@ func scenarioTags(sc *scenario) map[string]bool {
 		case s.Period < 0:
 			t["cfg:period-negative"] = true
 		case s.Period/int64(s.Max) == 0:
-			t["cfg:interval-0ns-unlimited"] = true
+			t["cfg:interval-below-1ns-clamped"] = true
 		case s.Period >= periodDomain:
 			t["cfg:period>=2^53ns"] = true
 		case s.Period/int64(s.Max) == 1:
